@@ -114,6 +114,12 @@ class C13(Prop):
                 yield ("SCAN " + hx(f + s), "scan-suffix", True)
         for total, f in big_cases(r)[::3]:
             yield ("BIGFRAME %d %s" % (total, hx(f)), "gigabyte-suffix", True)
+        # what comes BEFORE the frame in the scanned buffer must not matter either
+        for s in rejected_then_short(r):
+            yield ("SCAN " + hx(s), "rejected-prefix-then-short-frame", True)
+            yield ("ITER " + hx(s), "rejected-prefix-then-short-frame", True)
+        for s in stray_cases(r)[:8] + overlap_cases(r)[::5]:
+            yield ("SCAN " + hx(s), "dead-prefix-then-frame", True)
         for c in special_crcs(ctx.repo)[:12]:
             f = frame_with_crc(r, r.choice([3, 5, 30]), c, r.choice(SUPPORTED))
             yield ("FRAME " + hx(f), "bare", False)
@@ -227,6 +233,9 @@ class C05(Prop):
                 yield ("ITER " + hx(f + f[:-cut]), "special-checksum-truncated", True)
         for total, f in big_cases(r)[::2]:
             yield ("BIGSCAN %d %s" % (total, hx(f)), "gigabyte-buffer", True)
+        for s in rejected_then_short(r):
+            yield ("SCAN " + hx(s), "rejected-then-short-frame", True)
+            yield ("ITER " + hx(s), "rejected-then-short-frame", True)
         for s in overlap_cases(r):
             yield ("SCAN " + hx(s), "overlapping-candidates", True)
             yield ("ITER " + hx(s), "overlapping-candidates", True)
